@@ -217,3 +217,22 @@ def check_adapter(ctx, facts, fn, rule_prefix, want_scope=True, want_finish=True
                       "are submitted after the span (for a root: after the trace's commit)" % (
                           place_str(fn.term(sd)["place"]), sd, fn.locals[g].split("::")[-1], g, fn.local_name(g)),
                       extra="order")
+
+
+def rule_drop_order(ctx, facts, rule, adt_path):
+    """The adapter finishes its span AFTER the wrapped value is torn down when it is dropped unfinished: Rust drops
+    fields in declaration order, so the wrapped value must be declared before the span (or a Drop impl must order it)."""
+    adt = facts.adts.get(adt_path)
+    if adt is None:
+        ctx.fail(rule, adt_path, "-", "adapter type exists", "anchor lost", extra="anchor")
+        return
+    names = [f["name"] for f in adt["variants"][0]["fields"]]
+    span_f = [f["name"] for f in adt["variants"][0]["fields"] if re.search(r"Option<fastrace::span::Span>$|^fastrace::span::Span$", f["ty"])]
+    inner_f = [f["name"] for f in adt["variants"][0]["fields"] if f["ty"] == "T"]
+    has_drop = adt.get("drop") is not None and "PinnedDrop" not in str(adt.get("drop"))
+    ok = bool(span_f) and bool(inner_f) and (names.index(inner_f[0]) < names.index(span_f[0]) or has_drop)
+    ctx.check(ok, rule, adt_path, adt["span"],
+              "dropping an unfinished adapter destroys the wrapped future/stream/sink (and the spans its state owns) before it "
+              "finishes the adapter's span", "field order %s" % names,
+              "fields are declared %s: the span is dropped first, so spans owned by the suspended state are submitted after the "
+              "adapter's span (for a root: after the trace's commit)" % names, extra="drop-order")
